@@ -154,7 +154,33 @@ TriMats(m) ==
     ELSE ExpandMats(m.mats)
 
 Unnamed(x) == x \in {"<none>", "<nil>"}
-NamedMats(srcs) == UNION {{srcs[i].mats[j].m : j \in DOMAIN srcs[i].mats} : i \in DOMAIN srcs} \ {"<nil>"}
+
+(***************************************************************************)
+(* NAMES.  A line of the format is a sequence of ITEMS separated by blanks *)
+(* (space, tab); the first item is the keyword.  A name (g, usemtl, newmtl)*)
+(* is therefore the sequence of items behind the keyword: every character  *)
+(* that is not a blank - letters, digits, punctuation including the        *)
+(* number sign, slash, backslash, dot, minus, underscore, quotes, any      *)
+(* unicode letter - is an ordinary character of an item, at every position.*)
+(* A COMMENT is a line whose FIRST item starts with the number sign; the   *)
+(* number sign anywhere else is not special.                               *)
+(*   nw / mw   : the items of a source name, projected by the harness      *)
+(*               (the name split at blanks; "" has none)                   *)
+(*   a group name is written verbatim behind "g", so the file carries its  *)
+(*   items and reading it back gives them joined by one blank;             *)
+(*   a material goes by ONE item (formats/obj/writer.go materialName: the  *)
+(*   items concatenated, "Unnamed" when there is none).                    *)
+(* Sources that carry no nw / mw (the design models) are taken as they are.*)
+(***************************************************************************)
+JoinW(ws, sep) == IF ws = <<>> THEN "" ELSE FoldLeft(LAMBDA acc, w : acc \o sep \o w, ws[1], Tail(ws))
+GroupNameRead(nw) == JoinW(nw, " ")
+MtlNameWritten(mw) == IF mw = <<>> THEN "Unnamed" ELSE JoinW(mw, "")
+SrcName(m) == IF "nw" \in DOMAIN m THEN GroupNameRead(m.nw) ELSE m.name
+SrcMtl(r) == IF r.m = "<nil>" \/ "mw" \notin DOMAIN r THEN r.m ELSE MtlNameWritten(r.mw)
+SrcTriMats(m) ==
+    IF m.mats = <<>> THEN [t \in 1..NTris(m) |-> "<none>"]
+    ELSE ExpandMats([j \in DOMAIN m.mats |-> [n |-> m.mats[j].n, m |-> SrcMtl(m.mats[j])]])
+NamedMats(srcs) == UNION {{SrcMtl(srcs[i].mats[j]) : j \in DOMAIN srcs[i].mats} : i \in DOMAIN srcs} \ {"<nil>"}
 
 ScalarOk(s, o) == o = s[1] \/ o = s[2]
 VecOk(sv, ov) == Len(sv) = Len(ov) /\ \A i \in DOMAIN sv : ScalarOk(sv[i], ov[i])
@@ -191,7 +217,7 @@ GroupsBad(src, obs, named) ==
                                       /\ \A t \in DOMAIN s[i].mats : MatOk(s[i].mats[t], o[i].mats[t], named)
                THEN {} ELSE {"Materials"})
 
-SrcGroups(srcs) == [i \in DOMAIN srcs |-> [name |-> srcs[i].name, ok |-> TRUE, tris |-> Tris(srcs[i]), mats |-> TriMats(srcs[i])]]
+SrcGroups(srcs) == [i \in DOMAIN srcs |-> [name |-> SrcName(srcs[i]), ok |-> TRUE, tris |-> Tris(srcs[i]), mats |-> SrcTriMats(srcs[i])]]
 
 \* meshes returned by the real reader -> observed groups; a mesh that is not well formed has no
 \* corner view (ok = FALSE)
